@@ -50,3 +50,26 @@ Definition on_write (w : write_arms) (d : deadlines) (now : N) : deadlines :=
 (* the read side armed at t0, then the client writes at the given times while nothing arrives *)
 Definition silent_reader (w : write_arms) (d : deadlines) (t0 : N) (writes : list N) : deadlines :=
   List.fold_left (on_write w) writes (arm_read t0 d).
+
+(* ------------------------------------------------------------------ the timeout APPLIED: when the read side re-arms
+   readHeader is called once per incoming message.  [Always] is the code under test: the read deadline is armed
+   (now + timeout) before EVERY header read.  [Lazy] re-arms only when less than half the timeout is left of the
+   deadline in force.  [alive p dl arrivals]: the read side holds deadline dl and the reader's next messages arrive
+   at the given times; a message arriving after the deadline finds the connection reset. *)
+Inductive rearm_policy := Always | Lazy.
+Definition rearm (p : rearm_policy) (dl now : N) : N :=
+  match p with
+  | Always => now + read_timeout_ms
+  | Lazy => if dl - now <? read_timeout_ms / 2 then now + read_timeout_ms else dl
+  end.
+Fixpoint alive (p : rearm_policy) (dl : N) (arrivals : list N) : bool :=
+  match arrivals with
+  | nil => true
+  | cons t rest => if dl <? t then false else alive p (rearm p dl t) rest
+  end.
+(* successive messages, each at most the read timeout after the one before *)
+Fixpoint silences_within_timeout (t : N) (arrivals : list N) : Prop :=
+  match arrivals with
+  | nil => True
+  | cons t' rest => t <= t' /\ t' <= t + read_timeout_ms /\ silences_within_timeout t' rest
+  end.
